@@ -45,7 +45,7 @@ func buildDocumentIdentifier(doc *spdx23.Document) string {
 
 // ParseStream reads an io.Reader to parse an SPDX 2.3 document from it
 func (u *SPDX23) Unserialize(r io.Reader, _ *native.UnserializeOptions, _ interface{}) (*sbom.Document, error) {
-	spdxDoc, err := spdxjson.Read(r)
+	spdxDoc, err := readSPDXJSON(r)
 	if err != nil {
 		return nil, fmt.Errorf("parsing SPDX json: %w", err)
 	}
@@ -79,14 +79,23 @@ func (u *SPDX23) Unserialize(r io.Reader, _ *native.UnserializeOptions, _ interf
 	// TODO(degradation): SPDX LicenseVersion
 
 	for _, p := range spdxDoc.Packages {
+		if p == nil {
+			continue
+		}
 		bom.NodeList.AddNode(u.packageToNode(p))
 	}
 
 	for _, f := range spdxDoc.Files {
+		if f == nil {
+			continue
+		}
 		bom.NodeList.AddNode(u.fileToNode(f))
 	}
 
 	for _, r := range spdxDoc.Relationships {
+		if r == nil {
+			continue
+		}
 		// The SPDX go library surfaces the JSON top-level elements as relationships:
 		if r.RefA.ElementRefID == "DOCUMENT" && strings.EqualFold(r.Relationship, "DESCRIBES") {
 			bom.NodeList.RootElements = append(bom.NodeList.RootElements, string(r.RefB.ElementRefID))
@@ -96,6 +105,19 @@ func (u *SPDX23) Unserialize(r io.Reader, _ *native.UnserializeOptions, _ interf
 	}
 
 	return bom, nil
+}
+
+// readSPDXJSON decodes an SPDX JSON document. The decoder dereferences nil
+// entries of some arrays (for example "packages": [null]); such input is
+// reported as an error instead of a panic.
+func readSPDXJSON(r io.Reader) (doc *spdx.Document, err error) {
+	defer func() {
+		if rec := recover(); rec != nil {
+			doc = nil
+			err = fmt.Errorf("malformed SPDX document: %v", rec)
+		}
+	}()
+	return spdxjson.Read(r)
 }
 
 // packageToNode assigns the data from an SPDX package into a new Node
@@ -169,6 +191,9 @@ func (u *SPDX23) packageToNode(p *spdx23.Package) *sbom.Node {
 	if len(p.PackageExternalReferences) > 0 {
 		n.ExternalReferences = []*sbom.ExternalReference{}
 		for _, r := range p.PackageExternalReferences {
+			if r == nil {
+				continue
+			}
 			extRefType, isIdentifier, err := u.extRefToProtobomEnum(r)
 			if err != nil {
 				// TODO(degradation): Invalid external reference
